@@ -19,7 +19,8 @@
      Sha1Bytes(bytes)         the 20 digest bytes
      Sha1Circ(bytes)          SHA-1 with the 16-word circular message schedule (FIPS 180-4 section 6.1.3; the shape
                               of the implementation) - checked equal to Sha1
-   Deep recursion (80 rounds, one level per block): run TLC with -Xss1g.                                         *)
+   All recursion is by bisection (logarithmic depth) and each block's chaining value is forced before the next block, but
+   the 80 lazily evaluated rounds of one block still need more than TLC's default stack: run with -Xss16m or more.  *)
 EXTENDS Naturals, Sequences, Bitwise
 
 -------------------------------------------------------------------------------
@@ -193,24 +194,39 @@ ShaF(t, b, c, d) == IF t < 20 THEN WOr(WAnd(b, c), WAnd(WNot(b), d))
                     ELSE IF t < 40 THEN WXor(WXor(b, c), d)
                     ELSE IF t < 60 THEN WOr(WOr(WAnd(b, c), WAnd(b, d)), WAnd(c, d))
                     ELSE WXor(WXor(b, c), d)
-RECURSIVE ShaSched(_, _)
-ShaSched(w, t) == IF t > 80 THEN w
-                  ELSE ShaSched(Append(w, Rotl(WXor(WXor(w[t-3], w[t-8]), WXor(w[t-14], w[t-16])), 1)), t + 1)
-RECURSIVE ShaRounds(_, _, _)
-ShaRounds(s, w, t) == IF t = 80 THEN s
-                      ELSE LET tmp == WAdd(WAdd(WAdd(WAdd(Rotl(s[1], 5), ShaF(t, s[2], s[3], s[4])), s[5]), ShaK(t)), w[t+1])
-                           IN ShaRounds(<<tmp, s[1], Rotl(s[2], 30), s[3], s[4]>>, w, t + 1)
+\* Recursion is by bisection of the index range (depth log n): TLC's identifier lookup walks the chain of enclosing
+\* operator applications, so linear recursion over 80 rounds / thousands of blocks makes evaluation quadratic.
+RECURSIVE ShaSchedRange(_, _, _)
+ShaSchedRange(w, lo, hi) ==          \* extends w (words 1..lo-1) with words lo..hi
+    IF lo > hi THEN w
+    ELSE IF lo = hi THEN Append(w, Rotl(WXor(WXor(w[lo-3], w[lo-8]), WXor(w[lo-14], w[lo-16])), 1))
+    ELSE LET mid == (lo + hi) \div 2 IN ShaSchedRange(ShaSchedRange(w, lo, mid), mid + 1, hi)
+ShaSched(w, t) == ShaSchedRange(w, t, 80)
+ShaRound(s, w, t) == LET tmp == WAdd(WAdd(WAdd(WAdd(Rotl(s[1], 5), ShaF(t, s[2], s[3], s[4])), s[5]), ShaK(t)), w[t+1])
+                     IN <<tmp, s[1], Rotl(s[2], 30), s[3], s[4]>>
+RECURSIVE ShaRoundsRange(_, _, _, _)
+ShaRoundsRange(s, w, lo, hi) ==      \* rounds lo..hi
+    IF lo > hi THEN s
+    ELSE IF lo = hi THEN ShaRound(s, w, lo)
+    ELSE LET mid == (lo + hi) \div 2 IN ShaRoundsRange(ShaRoundsRange(s, w, lo, mid), w, mid + 1, hi)
+ShaRounds(s, w, t) == ShaRoundsRange(s, w, t, 79)
 ShaCompress(h, blockWords) == LET r == ShaRounds(h, ShaSched(blockWords, 17), 0) IN [i \in 1..5 |-> WAdd(h[i], r[i])]
 \* 16-word circular schedule: W[s] is replaced in place (s = t mod 16), as in section 6.1.3 and in the implementation
-RECURSIVE ShaRoundsCirc(_, _, _)
-ShaRoundsCirc(s, w, t) ==
-    IF t = 80 THEN s
-    ELSE LET i  == (t % 16) + 1
-             wt == IF t < 16 THEN w[i]
-                   ELSE Rotl(WXor(WXor(w[((t + 13) % 16) + 1], w[((t + 8) % 16) + 1]), WXor(w[((t + 2) % 16) + 1], w[i])), 1)
-             w2 == [w EXCEPT ![i] = wt]
-             tmp == WAdd(WAdd(WAdd(WAdd(Rotl(s[1], 5), ShaF(t, s[2], s[3], s[4])), s[5]), ShaK(t)), wt)
-         IN ShaRoundsCirc(<<tmp, s[1], Rotl(s[2], 30), s[3], s[4]>>, w2, t + 1)
+\* one round on the pair <<working variables, 16-word window>>
+ShaRoundCirc(sw, t) ==
+    LET s  == sw[1]
+        w  == sw[2]
+        i  == (t % 16) + 1
+        wt == IF t < 16 THEN w[i]
+              ELSE Rotl(WXor(WXor(w[((t + 13) % 16) + 1], w[((t + 8) % 16) + 1]), WXor(w[((t + 2) % 16) + 1], w[i])), 1)
+        tmp == WAdd(WAdd(WAdd(WAdd(Rotl(s[1], 5), ShaF(t, s[2], s[3], s[4])), s[5]), ShaK(t)), wt)
+    IN << <<tmp, s[1], Rotl(s[2], 30), s[3], s[4]>>, [w EXCEPT ![i] = wt] >>
+RECURSIVE ShaRoundsCircRange(_, _, _)
+ShaRoundsCircRange(sw, lo, hi) ==
+    IF lo > hi THEN sw
+    ELSE IF lo = hi THEN ShaRoundCirc(sw, lo)
+    ELSE LET mid == (lo + hi) \div 2 IN ShaRoundsCircRange(ShaRoundsCircRange(sw, lo, mid), mid + 1, hi)
+ShaRoundsCirc(s, w, t) == ShaRoundsCircRange(<<s, w>>, t, 79)[1]
 ShaCompressCirc(h, blockWords) == LET r == ShaRoundsCirc(h, blockWords, 0) IN [i \in 1..5 |-> WAdd(h[i], r[i])]
 ShaH0 == << <<26437, 8961>>, <<61389, 43913>>, <<39098, 56574>>, <<4146, 21622>>, <<50130, 57840>> >>
 \* padding: 0x80, k zero bytes, 64-bit big-endian bit length; total a multiple of 64 (message length < 2^28 bytes here)
@@ -221,9 +237,17 @@ ShaPad(bytes) == LET n == Len(bytes)
                  IN bytes \o <<128>> \o [i \in 1..k |-> 0] \o <<0, 0, 0, 0, hi \div 256, hi % 256, lo \div 256, lo % 256>>
 ShaWords(p, blk) == [i \in 1..16 |-> LET o == (blk - 1) * 64 + (i - 1) * 4 IN <<p[o+1] * 256 + p[o+2], p[o+3] * 256 + p[o+4]>>]
 RECURSIVE ShaFrom(_, _, _, _)
-ShaFrom(h, p, blk, nblk) == IF blk > nblk THEN h ELSE ShaFrom(ShaCompress(h, ShaWords(p, blk)), p, blk + 1, nblk)
+ShaFrom(h, p, blk, nblk) == IF blk > nblk THEN h
+                            ELSE IF blk = nblk THEN ShaCompress(h, ShaWords(p, blk))
+                            ELSE LET mid == (blk + nblk) \div 2
+                                     h1  == ShaFrom(h, p, blk, mid)
+                                 IN IF h1 = h1 THEN ShaFrom(h1, p, mid + 1, nblk) ELSE h1     \* the test forces h1 first (shallow stack)
 RECURSIVE ShaFromCirc(_, _, _, _)
-ShaFromCirc(h, p, blk, nblk) == IF blk > nblk THEN h ELSE ShaFromCirc(ShaCompressCirc(h, ShaWords(p, blk)), p, blk + 1, nblk)
+ShaFromCirc(h, p, blk, nblk) == IF blk > nblk THEN h
+                                ELSE IF blk = nblk THEN ShaCompressCirc(h, ShaWords(p, blk))
+                                ELSE LET mid == (blk + nblk) \div 2
+                                         h1  == ShaFromCirc(h, p, blk, mid)
+                                     IN IF h1 = h1 THEN ShaFromCirc(h1, p, mid + 1, nblk) ELSE h1
 Sha1(bytes)      == LET p == ShaPad(bytes) IN ShaFrom(ShaH0, p, 1, Len(p) \div 64)
 Sha1Circ(bytes)  == LET p == ShaPad(bytes) IN ShaFromCirc(ShaH0, p, 1, Len(p) \div 64)
 WordsToBytes(ws) == [i \in 1..(4 * Len(ws)) |-> LET w == ws[(i + 3) \div 4]
